@@ -76,10 +76,18 @@ Fixpoint p_list {A} (n : nat) (p : parser A) : parser (list A) :=
 (* ---- section 3: notations ----------------------------------------------------------------------- *)
 Definition p_byte : parser Z := fun b => match b with x :: r => Some (x, r) | [] => None end.
 
-(* n bytes, exactly *)
-Definition p_take (n : Z) : parser bytes := fun b =>
-  if (0 <=? n) && (n <=? Z.of_nat (length b))
-  then Some (firstn (Z.to_nat n) b, skipn (Z.to_nat n) b) else None.
+(* n bytes, exactly (fails when fewer than n are left); structural on the input so that a huge
+   length field costs nothing *)
+Fixpoint split_at (b : bytes) (n : Z) : option (bytes * bytes) :=
+  if n =? 0 then Some ([], b) else
+  match b with
+  | [] => None
+  | x :: r => match split_at r (n - 1) with
+              | Some (a, c) => Some (x :: a, c)
+              | None => None
+              end
+  end.
+Definition p_take (n : Z) : parser bytes := fun b => if n <? 0 then None else split_at b n.
 
 (* [short]: 2 bytes unsigned, big-endian *)
 Definition p_short : parser Z := b1 <- p_byte ;; b0 <- p_byte ;; ret (b1 * 256 + b0).
